@@ -361,3 +361,100 @@ B('f_c13_collect_groups_app_per_route', ['C13'], 'R13.d',
 B('f_c13_collect_groups_inner_reversed', ['C13'], 'R13.b',
   (A, _GMA, ''),
   (A, _GM, '    mw_groups = [app_middlewares]\n    mw_groups.extend(broute.middlewares[::-1] for broute in reversed(bound_routes))\n' + _GROUP_LOOP))
+
+# ---- C13 / R13.e: the wrapped entry point is never removed / replaced after construction -------------------------------
+# who may write the entry slot: the application class, through self, and only a wrapping of its current value; no spelling
+# deletes it (the attribute would fall back to the bare method and every wrapper would be gone for later requests)
+_CRE = '        check_render_error(error_handler.render_error, self.resources)\n'
+B('f_c13_entry_del_guarded', ['C13'], 'R13.e',
+  (A, _CRE + _SEH, _CRE + "        if '_dispatch_wsgi' in self.__dict__:\n            del self._dispatch_wsgi\n" + _SEH))
+B('f_c13_entry_vars_pop', ['C13'], 'R13.e',
+  (A, _CRE + _SEH, _CRE + "        vars(self).pop('_dispatch_wsgi', None)\n" + _SEH))
+B('f_c13_entry_delattr_try', ['C13'], 'R13.e',
+  (A, _CRE + _SEH, _CRE + "        try:\n            delattr(self, '_dispatch_wsgi')\n        except AttributeError:\n            pass\n" + _SEH))
+B('f_c13_entry_ns_alias_pop', ['C13'], 'R13.e',
+  (A, _CRE + _SEH, _CRE + "        own = self.__dict__\n        own.pop('_dispatch_wsgi', None)\n" + _SEH))
+B('f_c13_entry_object_delattr', ['C13'], 'R13.e',
+  (A, _CRE + _SEH, _CRE + "        if '_dispatch_wsgi' in vars(self):\n            object.__delattr__(self, '_dispatch_wsgi')\n" + _SEH))
+# the slot is rebuilt from the bare method, by other spellings of a store
+B('f_c13_entry_setattr_rebuilt', ['C13'], 'R13.e',
+  (A, _SEH, "        setattr(self, '_dispatch_wsgi', _safe_wrap_wsgi('error_handler', error_handler, type(self)._dispatch_wsgi.__get__(self)))\n"))
+B('f_c13_entry_dict_item_rebuilt', ['C13'], 'R13.e',
+  (A, _SEH, "        self.__dict__['_dispatch_wsgi'] = _safe_wrap_wsgi('error_handler', error_handler, type(self)._dispatch_wsgi.__get__(self))\n"))
+B('f_c13_entry_dict_update_rebuilt', ['C13'], 'R13.e',
+  (A, _SEH, "        self.__dict__.update(_dispatch_wsgi=_safe_wrap_wsgi('error_handler', error_handler, type(self)._dispatch_wsgi.__get__(self)))\n"))
+# ... somewhere else than in set_error_handler: add() "refreshes" the entry point; another class / module touches it
+B('f_c13_entry_reset_in_add', ['C13'], 'R13.e',
+  (A, '        rf = cast_to_route_factory(entry)\n', "        rf = cast_to_route_factory(entry)\n        self.__dict__.pop('_dispatch_wsgi', None)\n"))
+B('f_c13_entry_plain_store_in_add', ['C13'], 'R13.e',
+  (A, '        rf = cast_to_route_factory(entry)\n',
+      "        rf = cast_to_route_factory(entry)\n        self._dispatch_wsgi = _safe_wrap_wsgi('error_handler', self.error_handler, type(self)._dispatch_wsgi.__get__(self))\n"))
+B('f_c13_entry_popped_by_subapplication', ['C13'], 'R13.e',
+  (A, "        kwargs['prefix'] = self.prefix\n", "        kwargs['prefix'] = self.prefix\n        vars(self.app).pop('_dispatch_wsgi', None)\n"))
+B('f_c13_entry_written_from_outside', ['C13'], 'R13.e',
+  (A, "        kwargs['prefix'] = self.prefix\n", "        kwargs['prefix'] = self.prefix\n        app._dispatch_wsgi = _safe_wrap_wsgi('error_handler', app.error_handler, app._dispatch_wsgi)\n"))
+B('f_c13_entry_namespace_cleared', ['C13'], 'R13.e',
+  (A, '        rf = cast_to_route_factory(entry)\n',
+      "        rf = cast_to_route_factory(entry)\n        if kwargs.get('reset'):\n            self.__dict__.clear()\n"))
+# equivalent / unrelated spellings stay silent: a wrapping store spelled setattr; reads of the namespace; another key
+T('f_c13_entry_store_by_setattr', ['C13'],
+  (A, _SEH, "        setattr(self, '_dispatch_wsgi', _safe_wrap_wsgi('error_handler', error_handler, self._dispatch_wsgi))\n"))
+T('f_c13_entry_namespace_reads', ['C13'],
+  (A, _CRE + _SEH, _CRE + "        already_wrapped = '_dispatch_wsgi' in self.__dict__\n        previous = vars(self).get('_dispatch_wsgi')\n" + _SEH))
+T('f_c13_entry_other_key_popped', ['C13'],
+  (A, _CRE + _SEH, _CRE + "        self.__dict__.pop('_error_handler_cache', None)\n        vars(self).pop('_fallback', None)\n" + _SEH))
+T('f_c13_entry_second_wrapping_method', ['C13'],
+  (A, "    def iter_routes(self):\n        for rt in self.routes:\n",
+      "    def add_wsgi_wrapper(self, source):\n        self._dispatch_wsgi = _safe_wrap_wsgi('wrapper', source, self._dispatch_wsgi)\n\n"
+      "    def iter_routes(self):\n        for rt in self.routes:\n"))
+# the stack is named before a namespace spelling removes the slot in between: the local is stale
+B('f_c13_entry_pop_between_read_and_store', ['C13'], 'R13.e',
+  (A, _SEH, "        inner_wsgi = self._dispatch_wsgi\n        self.__dict__.pop('_dispatch_wsgi', None)\n"
+            "        self._dispatch_wsgi = _safe_wrap_wsgi('error_handler', error_handler, inner_wsgi)\n"))
+
+# ---- C13 / R13.b: the wrappers applied by functools.reduce / accumulated in a local ------------------------------------
+_STEP = ("def _wrap_one(inner, mw):\n    return _safe_wrap_wsgi('middleware', mw, inner)\n\n\n"
+         "def _safe_wrap_wsgi(source_name, source, inner):\n")
+_SWDEF = "def _safe_wrap_wsgi(source_name, source, inner):\n"
+_IMP = 'import itertools\n'
+_LOOP2 = ('        for mw in reversed(all_mws):\n' + _WL)
+T('f_c13_wrap_reduce_step_function', ['C13'],
+  (A, _IMP, 'import functools\n' + _IMP), (A, _SWDEF, _STEP),
+  (A, _LOOP2, '        self._dispatch_wsgi = functools.reduce(_wrap_one, reversed(all_mws), self._dispatch_wsgi)\n'))
+T('f_c13_wrap_reduce_lambda_named_result', ['C13'],
+  (A, _IMP, 'from functools import reduce\n' + _IMP),
+  (A, _LOOP2, "        stack = reduce(lambda inner, mw: _safe_wrap_wsgi('middleware', mw, inner), all_mws[::-1], self._dispatch_wsgi)\n"
+              '        self._dispatch_wsgi = stack\n'))
+T('f_c13_wrap_accumulated_in_local', ['C13'],
+  (A, _LOOP2, "        stack = self._dispatch_wsgi\n        for mw in reversed(all_mws):\n            stack = _safe_wrap_wsgi('middleware', mw, stack)\n"
+              '        self._dispatch_wsgi = stack\n'))
+B('f_c13_wrap_reduce_not_reversed', ['C13'], 'R13.b',
+  (A, _IMP, 'import functools\n' + _IMP), (A, _SWDEF, _STEP),
+  (A, _LOOP2, '        self._dispatch_wsgi = functools.reduce(_wrap_one, all_mws, self._dispatch_wsgi)\n'))
+B('f_c13_wrap_reduce_step_swapped', ['C13'], 'R13.b',
+  (A, _IMP, 'import functools\n' + _IMP), (A, _SWDEF, _STEP.replace("'middleware', mw, inner", "'middleware', inner, mw")),
+  (A, _LOOP2, '        self._dispatch_wsgi = functools.reduce(_wrap_one, reversed(all_mws), self._dispatch_wsgi)\n'))
+B('f_c13_wrap_reduce_from_bare_method', ['C13'], 'R13.b',
+  (A, _IMP, 'import functools\n' + _IMP), (A, _SWDEF, _STEP),
+  (A, _LOOP2, '        self._dispatch_wsgi = functools.reduce(_wrap_one, reversed(all_mws), type(self)._dispatch_wsgi.__get__(self))\n'))
+B('f_c13_wrap_accumulated_never_stored_back', ['C13'], 'R13.b',
+  (A, _LOOP2, "        stack = self._dispatch_wsgi\n        for mw in reversed(all_mws):\n            stack = _safe_wrap_wsgi('middleware', mw, stack)\n"))
+B('f_c13_wrap_accumulated_restarts', ['C13'], 'R13.b',
+  (A, _LOOP2, "        stack = self._dispatch_wsgi\n        for mw in reversed(all_mws):\n            stack = _safe_wrap_wsgi('middleware', mw, self._dispatch_wsgi)\n"
+              '        self._dispatch_wsgi = stack\n'))
+# ---- C13 / R13.b: the two walks of _get_all_middlewares come out of one source line (chain(...) split by the front-end) --
+T('f_c13_collect_chain_of_both', ['C13'],
+  (A, _GMA, ''),
+  (A, _GM, '    route_mws = itertools.chain.from_iterable(broute.middlewares for broute in reversed(bound_routes))\n'
+           '    for mw in itertools.chain(app_middlewares, route_mws):\n        if mw not in all_mw:\n            all_mw.append(mw)\n'))
+T('f_c13_collect_helper_result_aliased', ['C13'],
+  (A, 'def _get_all_middlewares(bound_routes, app_middlewares=()):\n',
+      'def _add_new(seen, candidates):\n    for candidate in candidates:\n        if candidate not in seen:\n            seen.append(candidate)\n    return seen\n\n\n'
+      'def _get_all_middlewares(bound_routes, app_middlewares=()):\n'),
+  (A, '    all_mw = []\n', ''), (A, _GMA, '    all_mw = _add_new([], app_middlewares)\n'),
+  (A, _GM + '\n    return all_mw\n', '    per_route = (broute.middlewares for broute in reversed(bound_routes))\n'
+                                       '    return _add_new(all_mw, itertools.chain.from_iterable(per_route))\n'))
+B('f_c13_collect_chain_routes_first', ['C13'], 'R13.b',
+  (A, _GMA, ''),
+  (A, _GM, '    route_mws = itertools.chain.from_iterable(broute.middlewares for broute in reversed(bound_routes))\n'
+           '    for mw in itertools.chain(route_mws, app_middlewares):\n        if mw not in all_mw:\n            all_mw.append(mw)\n'))
